@@ -114,6 +114,9 @@ SUMMARY = {
     "S10_1": "borrowed handle: asend/athrow disabled only when the iterator has `athrow`",
     "S10_2": "`ScopedIter` swallows an AttributeError raised by the source's `aclose`",
     "S10_3": "`sync()` commits to the flavour of the first result",
+    "T01_1": "non-strict `zip` calls every `__anext__()` before awaiting any (sources that consume when called)",
+    "T01_2": "`filter` picks its predicate by truthiness (a falsy callable object is ignored)",
+    "T01_3": "`iter(callable, sentinel)` swallows TypeError / ValueError raised by the comparison",
     "T02_1": "`sorted(key)` sorts (key, position, item) tuples: keys whose `==` disagrees with `<` change the order or raise",
     "T02_2": "`tuple()` returns a tuple-subclass argument uncopied",
     "T02_3": "`dict(pairs, **kw)`: a duplicate key in the pairs that is also a keyword takes the pair's value",
